@@ -4,12 +4,20 @@ MK = 'pedal/sandbox/mocked.py'
 TO = 'pedal/sandbox/timeout.py'
 
 CASES = [
+    # fix 6f5e45d: an exception class with an empty name
+    dict(name='revert-fix-article-for-empty-name', kind='mutant', rule='R4', key="add_indefinite_article['']",
+         edits=[dict(file='pedal/utilities/text.py', old="    if not phrase:\n        # Nothing to choose an article for (e.g., an exception class without a name)\n        return \"a \"+phrase\n", new="")]),
+    dict(name='twin-article-guard-by-length', kind='twin',
+         edits=[dict(file='pedal/utilities/text.py', old="    if not phrase:\n", new="    if len(phrase) == 0:\n")]),
+    # round 12: tracers never swallow
+    dict(name='call-tracer-swallows-bdbquit', kind='mutant', rule='R8', key='tracer[calls]=SandboxCallTracer:BdbQuit',
+         edits=[dict(file='pedal/sandbox/tracer.py', old="        return isinstance(exc_type, BdbQuit)", new="        return exc_type is not None and issubclass(exc_type, BdbQuit)")]),
     # fix 12d227e: compile() on a text with a null byte gives a SyntaxError with no position, text or file name
     dict(name='revert-fix-made-up-frame-line-length', kind='mutant', rule='R7', key='compile-error[null byte,3.11/3.12,',
          edits=[dict(file='pedal/utilities/exceptions.py',
                      old="            line = frame._line if frame._line is not None else ''\n            end_offset = frame.end_colno+1 if frame.lineno == frame.end_lineno else len(line)\n",
                      new="            end_offset = frame.end_colno+1 if frame.lineno == frame.end_lineno else len(frame._line)\n            line = frame._line if frame._line is not None else ''\n")]),
-    dict(name='revert-fix-made-up-frame-filename', kind='mutant', rule='R7', key='compile-error[null byte,3.11/3.12,HtmlFormatter]',
+    dict(name='revert-fix-made-up-frame-filename', kind='mutant', rule='R7', key='compile-error[null byte,3.11/3.12,TerminalFormatter]',
          edits=[dict(file='pedal/utilities/exceptions.py',
                      old='            filename = self.exception.filename if self.exception.filename is not None else "<string>"\n',
                      new='            filename = self.exception.filename\n')]),
